@@ -6,6 +6,7 @@ package main
 
 import (
 	"fmt"
+	"strings"
 	"sync"
 	"time"
 
@@ -78,24 +79,10 @@ func runPubBurst(c pubCase) (logs []string, nEvents int, timedOut bool) {
 			timedOut = true
 		}
 	} else {
-		// after shutdown the marker is dropped: wait until every subscription the harness knows of was closed
-		deadline := time.Now().Add(20 * time.Second)
-		for {
-			mu.Lock()
-			open := 0
-			for _, s := range subs {
-				open += len(s.subs)
-			}
-			mu.Unlock()
-			if open == 0 {
-				time.Sleep(2 * time.Millisecond)
-				break
-			}
-			if time.Now().After(deadline) {
-				timedOut = true
-				break
-			}
-			time.Sleep(200 * time.Microsecond)
+		// after shutdown the marker is dropped: the publisher's goroutine drains its queue, closes every
+		// remaining subscription and returns; once it is gone nothing more can be delivered
+		if !waitPublishersGone(20 * time.Second) {
+			timedOut = true
 		}
 	}
 	mu.Lock()
@@ -106,8 +93,29 @@ func runPubBurst(c pubCase) (logs []string, nEvents int, timedOut bool) {
 	mu.Unlock()
 	if !shut {
 		ps.Shutdown()
+		waitPublishersGone(20 * time.Second)
 	}
 	return
+}
+
+// waitPublishersGone waits until no goroutine is running a publisher's command loop any more
+func waitPublishersGone(d time.Duration) bool {
+	deadline := time.Now().Add(d)
+	for {
+		n := 0
+		for _, g := range goroutineStates() {
+			if strings.Contains(g.body, "notifications.(*publisher).start") {
+				n++
+			}
+		}
+		if n == 0 {
+			return true
+		}
+		if time.Now().After(deadline) {
+			return false
+		}
+		time.Sleep(100 * time.Microsecond)
+	}
 }
 
 func pubBurstTerm(c pubCase, logs []string) string {
